@@ -42,6 +42,10 @@ type Scenario struct {
 	// Targets: number of targets the cache is created with (dev, other, t2, t3, ...).
 	Targets int      `json:"targets,omitempty"`
 	Ops     []LifeOp `json:"ops,omitempty"`
+
+	// Verbose: glog verbosity (-v) of the process while the scenario runs: the diagnostics inside
+	// `if log.V(n)` blocks format the very messages a peer sent.
+	Verbose int `json:"verbose,omitempty"`
 }
 
 // LifeOp is one step in the life of the (cache, server) pair of a "life" scenario.
